@@ -344,3 +344,5 @@ def run(ctx):
                        "spelling, keepdims: model vs x.reduce on (data, indices, indptr, shape, compressed_axes, fill), every recorded change_compressed_axes / "
                        "_reduce_calc / reshape call replayed through the model, direct change_compressed_axes and reshape calls; leg C: 15 reductions x "
                        "6 dtypes x COO/GCXS vs NumPy; non-trivial = non-empty array; distinct by content hash")
+    import extra_ops  # operation tables closing the measured coverage gaps (tools/coverage_audit.py; coverage/API_COVERAGE.md)
+    extra_ops.run(ctx, PID)
